@@ -36,15 +36,34 @@ def classify(component, what, case):
         return None
     if case.get("quirk") in QBITS.values():
         return case["quirk"]
-    if case.get("witness") in ("F57", "F58", "F59", "F37", "F32"):
+    if case.get("witness") in ("F57", "F58", "F60"):
         return case["witness"]
-    err = case.get("stderr", "") or ""
-    if case.get("crash") and "outside the range of representable values of type 'long long'" in err:
-        return "F37"
-    if case.get("crash") and "in get_node_pos" in err and "null pointer" in err:
-        return "F59"
-    if case.get("crash") and ("in xpath_bit_is_set" in err or "in xpath_deref" in err or "in xpath_enum_value" in err) and "null pointer" in err:
-        return "F32"
+    err = (case.get("stderr", "") or "") + " " + (what or "")
+    if case.get("crash"):
+        if "outside the range of representable values of type 'long long'" in err:
+            return "F37"
+        fnname = crash_function(what or "") or ""
+        if "null pointer" in err and (fnname == "get_node_pos" or "in get_node_pos" in err):
+            return "F59"
+        if "null pointer" in err and (fnname in ("xpath_bit_is_set", "xpath_deref", "xpath_enum_value") or "in xpath_bit_is_set" in err):
+            return "F32"
+    return None
+
+
+def crash_function(what):
+    """name of the function of src/xpath.c that contains the source line of a sanitizer report (the report's own frames may be cut off)"""
+    import re
+    from vlib import paths
+    m = re.search(r"src/xpath\.c:(\d+):", what)
+    if not m: return None
+    line = int(m.group(1))
+    try:
+        src = open(os.path.join(paths.REPO, "src", "xpath.c"), errors="replace").read().split("\n")
+    except OSError:
+        return None
+    for i in range(min(line, len(src)) - 1, -1, -1):
+        mm = re.match(r"^([a-z_][a-z0-9_]*)\(", src[i])
+        if mm: return mm.group(1)
     return None
 
 
@@ -219,6 +238,200 @@ def run(cx):
                     items.append(("find", c, e, {"text": X.render(e, rng)}))
         groups.append((xml, items))
     results, dumps = run_groups(cx, groups, "xpath")
+    nodeset_law(cx, results)
+    rec_law(cx, results)
+    fastpath_law(cx, cx.n(25, 200))
+    witnesses(cx)
+
+
+NOT_MIRRORED = ("F57", "F58", "F60")
+
+
+def witnesses(cx):
+    """Every listed finding is exercised on every run.  Mirrored deviations go through the differential and the XPath 1.0 law; the others are compared
+    with the XPath 1.0 result only (the engine does not reproduce them); crash witnesses get one process each."""
+    items = [("eval", c, e, {"fid": fid}) for (fid, c, e) in X.WITNESSES if fid not in NOT_MIRRORED]
+    results, dumps = run_groups(cx, [(X.WITNESS_XML, items)], "witness")
+    nodeset_law(cx, results)
+    rec_law(cx, results)
+    # not mirrored: implementation vs XPath 1.0
+    if 0 in dumps:
+        ws = [(fid, c, e) for (fid, c, e) in X.WITNESSES if fid in NOT_MIRRORED]
+        lines = [schema_line("s"), "t %s tree x %s %s" % (COMP, hexs(X.WITNESS_XML), dumps[0])]
+        for n, (fid, c, e) in enumerate(ws):
+            lines.append("w%d %s eval %d %s %s %s" % (n, COMP, c, hexs(X.render(e)), hexs(X.prefix(e)), dumps[0]))
+        ri = run_impl_stateful(cx, lines)
+        rm = cx.run_model(["w%d %s evalq 0 %s" % (n, COMP, " ".join(lines[n + 2].split()[3:])) for n in range(len(ws))])
+        for n, (fid, c, e) in enumerate(ws):
+            a, r = ri.get("w%d" % n, ["err", "NoReply"]), rm.get("w%d" % n, ["err", "NoReply"])
+            cx.count(("witness", fid, X.prefix(e)), True, "witness:" + fid)
+            if a != r:
+                cx.fail(COMP, "result differs from XPath 1.0 (%s)" % fid, {"witness": fid, "expr": X.render(e), "ctx": c, "impl": a, "xpath10": r})
+    for (fid, xml, c, e) in X.CRASH_WITNESSES:
+        lines = [schema_line("s"), "t %s load x %s" % (COMP, hexs(xml)), "w %s eval %d %s -" % (COMP, c, hexs(X.render(e)))]
+        cx.count(("witness", fid, X.prefix(e)), True, "witness:" + fid)
+        cx.run_impl(HARNESS, lines, component=COMP)      # a sanitizer abort is recorded as a failure and classified by its report
+
+
+# ----------------------------------------------------------------------------------------------------------------------
+def parse_dump(dump_hex):
+    """[(index, depth, mod, name, kind, value, parent index)]"""
+    txt = unhex(dump_hex).decode() if dump_hex != "-" else ""
+    out, stack = [], {}
+    for i, ln in enumerate([l for l in txt.split("\n") if l]):
+        d, mod, name, kind, val, bt = ln.split()
+        d = int(d)
+        v = unhex(val).decode("utf-8", "replace")
+        out.append({"i": i + 1, "d": d, "mod": mod, "name": name, "kind": kind, "v": v, "p": stack.get(d - 1, 0), "bt": bt})
+        stack[d] = i + 1
+    return out
+
+
+def lit_or_none(v):
+    return None if ("'" in v and '"' in v) else X.lit(v)
+
+
+def pair_groups(cx, nodes, rng):
+    """Key / value predicate expressions, each as a family of semantically identical forms: the first is answered through the children
+    hash table (eval_name_test_try_compile_predicates + moveto_node_hash_child), the others defeat that fast path."""
+    fams = []
+    by_i = {n["i"]: n for n in nodes}
+
+    def kids(i): return [n for n in nodes if n["p"] == i]
+
+    def path_to(i):
+        steps = []
+        while i:
+            n = by_i[i]
+            steps.append(n); i = n["p"]
+        return list(reversed(steps))
+
+    def key_preds_of(entry):
+        """predicate steps that identify this list entry / leaf-list entry on the way down"""
+        return None
+
+    lists = [n for n in nodes if n["kind"] == "i" and (n["mod"], n["name"]) in ((X.A, "l1"), (X.A, "l2"), (X.A, "l3"), (X.A, "top"))]
+    rng.shuffle(lists)
+    keyname = {"l1": ["k"], "l2": ["k1", "k2"], "l3": ["k"], "top": ["id"]}
+    for ent in lists[:6]:
+        ks = keyname[ent["name"]]
+        kv = {k["name"]: k["v"] for k in kids(ent["i"]) if k["name"] in ks and k["mod"] == X.A}
+        if len(kv) != len(ks) or any(lit_or_none(v) is None for v in kv.values()): continue
+        if rng.random() < 0.25:      # a value that does not occur
+            kv[ks[-1]] = rng.choice(["zz", "7", "a"])
+        anc = path_to(ent["p"])
+        if any(a["name"] in keyname for a in anc):
+            # parent list entries are addressed by position-independent key predicates as well
+            pass
+        base = []
+        ok = True
+        for a in anc:
+            if a["name"] in keyname:
+                akv = {k["name"]: k["v"] for k in kids(a["i"]) if k["name"] in keyname[a["name"]]}
+                if any(lit_or_none(v) is None for v in akv.values()): ok = False; break
+                base.append(X.st(a["name"], preds=[X.bop("eq", X.relp(X.st(k)), X.lit(akv[k])) for k in keyname[a["name"]]]))
+            else:
+                base.append(X.st(X.nm(a["name"], a["mod"])))
+        if not ok: continue
+        name = ent["name"]
+        eqs = [(k, kv[k]) for k in ks]
+        K = lambda k, pfx=X.A: X.relp(X.st(X.nm(k, pfx)))
+        forms = [
+            [X.st(name, preds=[X.bop("eq", K(k), X.lit(v)) for (k, v) in eqs])],                                  # fast path
+            [X.st(name, preds=[X.bop("eq", X.fn("string", K(k)), X.lit(v)) for (k, v) in eqs])],
+            [X.st(name, preds=[X.bop("eq", X.lit(v), K(k)) for (k, v) in eqs])],
+            [X.st(name, preds=[X.bop("eq", K(k, None), X.lit(v)) for (k, v) in eqs])],                            # unprefixed keys (fast path)
+            [X.st(X.STAR, preds=[X.relp(X.st(name, "self"))] + [X.bop("eq", K(k), X.lit(v)) for (k, v) in eqs])],
+            [X.st(name, preds=[X.bop("and", X.bop("eq", K(k), X.lit(v)), X.fn("true")) for (k, v) in eqs])],
+            [X.st(name, preds=[X.bop("eq", X.fn("normalize-space", X.fn("concat", K(k), X.lit(""))), X.fn("normalize-space", X.lit(v))) for (k, v) in eqs])]
+            if all(v == " ".join(v.split()) for (_, v) in eqs) else None,
+        ]
+        if len(eqs) == 2:
+            forms.append([X.st(name, preds=[X.bop("eq", K(k), X.lit(v)) for (k, v) in reversed(eqs)])])             # reordered keys
+            forms.append([X.st(name, preds=[X.bop("and", X.bop("eq", K(eqs[0][0]), X.lit(eqs[0][1])), X.bop("eq", K(eqs[1][0]), X.lit(eqs[1][1])))])])
+        intv = [(k, v) for (k, v) in eqs if v.lstrip("-").isdigit() and not v.startswith("-")]
+        if intv and name in ("l2", "top"):
+            forms.append([X.st(name, preds=[X.bop("eq", K(k), (X.num(int(v)) if (k, v) in intv and k in ("k2", "id") else X.lit(v))) for (k, v) in eqs])])
+        tails = [[], [X.st(X.nm("v"))], [X.st(X.STAR)], [X.st(X.NODE, "parent")]]
+        tail = rng.choice(tails)
+        fam = [X.absp(*(base + f + tail)) for f in forms if f]
+        fams.append(("list:" + name, 0, fam))
+        # relative from the parent
+        if ent["p"]:
+            fams.append(("list-rel:" + name, ent["p"], [X.relp(*(f + tail)) for f in forms if f]))
+    lls = [n for n in nodes if n["kind"] == "t" and n["name"] in ("ll", "ls", "w", "sl", "z")]
+    rng.shuffle(lls)
+    for ent in lls[:5]:
+        v = ent["v"] if rng.random() < 0.8 else rng.choice(["zz", "1", "a"])
+        if lit_or_none(v) is None: continue
+        anc = path_to(ent["p"])
+        base, ok = [], True
+        for a in anc:
+            if a["name"] in keyname:
+                akv = {k["name"]: k["v"] for k in kids(a["i"]) if k["name"] in keyname[a["name"]]}
+                if any(lit_or_none(x) is None for x in akv.values()): ok = False; break
+                base.append(X.st(a["name"], preds=[X.bop("eq", X.relp(X.st(k)), X.lit(akv[k])) for k in keyname[a["name"]]]))
+            else:
+                base.append(X.st(X.nm(a["name"], a["mod"])))
+        if not ok: continue
+        t = X.nm(ent["name"], ent["mod"])
+        forms = [[X.st(t, preds=[X.bop("eq", X.DOT, X.lit(v))])],
+                 [X.st(t, preds=[X.bop("eq", X.fn("string", X.DOT), X.lit(v))])],
+                 [X.st(t, preds=[X.bop("eq", X.lit(v), X.DOT)])],
+                 [X.st(t, preds=[X.bop("eq", X.relp(X.st(X.NODE, "self")), X.lit(v))])],
+                 [X.st(X.STAR, preds=[X.relp(X.st(t, "self")), X.bop("eq", X.DOT, X.lit(v))])]]
+        if ent["bt"] == "int" and v.isdigit():
+            forms.append([X.st(t, preds=[X.bop("eq", X.DOT, X.num(int(v)))])])
+        fams.append(("leaflist:" + ent["name"], 0, [X.absp(*(base + f)) for f in forms]))
+    # value taken from the context node (current()): any terminal as context
+    terms = [n for n in nodes if n["kind"] == "t" and n["bt"] == "string"]
+    rng.shuffle(terms)
+    for ctxn in terms[:4]:
+        cur = X.fn("current")
+        fam = [X.absp(X.C_, X.st("l1", preds=[X.bop("eq", X.relp(X.st("k")), cur)])),
+               X.absp(X.C_, X.st("l1", preds=[X.bop("eq", X.fn("string", X.relp(X.st("k"))), X.fn("string", cur))])),
+               X.absp(X.C_, X.st(X.STAR, preds=[X.relp(X.st("l1", "self")), X.bop("eq", X.relp(X.st("k")), cur)]))]
+        fams.append(("current:l1", ctxn["i"], fam))
+        fam = [X.absp(X.C_, X.st("ls", preds=[X.bop("eq", X.DOT, cur)])),
+               X.absp(X.C_, X.st("ls", preds=[X.bop("eq", X.fn("string", X.DOT), X.fn("string", cur))]))]
+        fams.append(("current:ls", ctxn["i"], fam))
+    return fams
+
+
+def fastpath_law(cx, ntrees):
+    """(K)+(L): every form goes through the differential; the law on the implementation: all forms of a family select identical node lists."""
+    base = []
+    for ti in range(ntrees):
+        rng = cx.sub_rng("fp-tree%d" % ti)
+        xml, vals = X.gen_tree(rng, X.SCHEMA1, density=rng.choice([0.6, 0.9]), maxinst=rng.choice([2, 3, 6]))
+        base.append(xml)
+    lines = [schema_line("s")] + ["t%d %s load x %s" % (i, COMP, hexs(x)) for i, x in enumerate(base)]
+    rep = cx.run_impl(HARNESS, lines, component=COMP)
+    groups, famidx = [], []
+    for ti, xml in enumerate(base):
+        r = rep.get("t%d" % ti, ["err"])
+        if r[0] != "ok": continue
+        nodes = parse_dump(r[1])
+        rng = cx.sub_rng("fp-expr%d" % ti)
+        fams = pair_groups(cx, nodes, rng)
+        items = []
+        for (tag, c, fam) in fams:
+            famidx.append((len(groups), tag, c, list(range(len(items), len(items) + len(fam)))))
+            for e in fam:
+                items.append(("eval", c, e, {"text": X.render(e, rng)}))
+        groups.append((xml, items))
+    results, dumps = run_groups(cx, groups, "fastpath")
+    by = {(gi, ii): (l, a) for (gi, ii, l, a, b, d) in results}
+    for (gi, tag, c, idxs) in famidx:
+        reps = [by.get((gi, ii)) for ii in idxs]
+        if any(r is None for r in reps): continue
+        first = reps[0][1]
+        cx.count(("fam", gi, tag, c, idxs[0]), first[:2] == ["ok", "ns"] and len(first) > 2, "fastpath:family:" + tag.split(":")[0])
+        for (l, a) in reps[1:]:
+            if a != first:
+                cx.fail(COMP, "key/value predicate answered by lookup selects other nodes than the equivalent generic form",
+                        {"family": tag, "ctx": c, "fast": unhex(reps[0][0].split()[4]).decode(), "fast_result": first,
+                         "generic": unhex(l.split()[4]).decode(), "generic_result": a})
     nodeset_law(cx, results)
     rec_law(cx, results)
 
